@@ -1,4 +1,4 @@
 """C02 - a client crash at every RPC boundary of Commit (undelivered / delivered-unanswered), with companions."""
 from checks.txn_common import run_txn_check
 def run(tier, seed, replay=None):
-    return run_txn_check("C02", [("c02", 3, 1)], tier, seed, replay, extra_cov=dict(exhaustive=(tier == "thorough")))
+    return run_txn_check("C02", [("c02", 3, 1), ("c02uni", 12, 1)], tier, seed, replay, extra_cov=dict(exhaustive=(tier == "thorough")))
